@@ -102,7 +102,10 @@ def render_files(spec, rng, layout) -> dict:
         rng.shuffle(B)
     head = []
     if spec.get("defaults"):
-        head.append(["@defaults"] + [f"    {k} = {v}" for k, v in spec["defaults"].items()] + ["@end"])
+        items = list(spec["defaults"].items())
+        if layout.get("permute", True) and rng.random() < 0.5:
+            items.reverse()  # the keys of the block are named: their order means nothing
+        head.append(["@defaults"] + [f"    {k} = {v}" for k, v in items] + ["@end"])
 
     def decorate(lines):
         out = []
